@@ -47,17 +47,40 @@ import (
 // application does FIRST on the stream NewStream returned (script: a sequence of distinct stream operations, see
 // c07Scripts; "" = nothing special). After the script the open is completed by what is still possible of the
 // standard exchange: write the nonce (unless written / write side closed), read the answer (unless read side closed).
+//
+// rev: the open goes the OTHER way over the same connection: L opens the stream to dialer dk, whose own handlers
+// (c07Cfg.DH) are then the "listener's" handlers of the statement.
 type c07Req struct {
 	dk     int
 	list   []protocol.ID
 	script string
+	rev    bool
 }
 
 func (q c07Req) String() string {
-	if q.script == "" {
-		return fmt.Sprintf("%s:%v", c07ConnName[q.dk], q.list)
+	dir := c07ConnName[q.dk]
+	if q.rev {
+		dir = "L->" + c07ConnName[q.dk]
 	}
-	return fmt.Sprintf("%s:%v first:%s", c07ConnName[q.dk], q.list, c07ShowScript(q.script))
+	if q.script == "" {
+		return fmt.Sprintf("%s:%v", dir, q.list)
+	}
+	return fmt.Sprintf("%s:%v first:%s", dir, q.list, c07ShowScript(q.script))
+}
+
+// opener / target: the host (0 = L, 1+k = dialer k) that calls NewStream, and the one whose handler is to run.
+func (q c07Req) opener() int {
+	if q.rev {
+		return 0
+	}
+	return 1 + q.dk
+}
+
+func (q c07Req) target() int {
+	if q.rev {
+		return 1 + q.dk
+	}
+	return 0
 }
 
 // Stream operations of a script.
@@ -149,6 +172,7 @@ type c07Attempt struct {
 	limited    bool
 	reply      []byte
 	prefix     []byte // written in front of the nonce, in the same Write (see crafted())
+	refusedBy  string // the target's resource manager refused to attach the stream to the protocol scope ("" = it did not)
 }
 
 func (a *c07Attempt) ok() bool { return a.stage == "" }
@@ -201,12 +225,12 @@ func (ck *c07Checker) infra(msg string) {
 // ---------- one group of opens (1 = sequential, 2 = concurrent) ----------
 
 func (in *c07Inst) attempt(a *c07Attempt) {
-	d := in.D[a.dk]
+	d := in.node(a.opener())
 	ctx := context.Background() // the host applies its own negotiation timeout (virtual time here)
 	if a.dk == c07Limited {
 		ctx = network.WithAllowLimitedConn(ctx, "c07")
 	}
-	s, err := d.h.NewStream(ctx, in.L.id, a.list...)
+	s, err := d.h.NewStream(ctx, in.node(a.target()).id, a.list...)
 	if err != nil {
 		a.stage, a.err = "NewStream", err
 		return
